@@ -81,9 +81,12 @@ CLAIMED = {
 V2TB = ("Trusted: Coq kernel; hand models Model/HasherV2.v tied to hasher.py by differential execution (extracted OCaml vs the real classes; "
         "exhaustive small scopes with BLOCK_SIZE patched to 4/3/1 in the thorough tier, theorems hold for every B); Spec/Bep52.v cross-checked "
         "against the oracle's two independent BEP 52 formulations; extraction and the OCaml SHA functions for the correspondence only; OS reads.")
-RCTB = ("Trusted: Coq kernel; hand models Model/Recheck.v, Model/HasherV2.v tied to recheck.py/hasher.py by differential execution of whole "
-        "traces; the step from exact integers to the IEEE double (x/x*100 == 100.0; matched<consumed<2^53 gives < 100) is argued, not formalised, "
-        "and asserted on every evaluated case; the mapping of metafile entries to disk paths (find_root/check_paths) is exercised end to end, not modelled.")
+RCTB = ("Trusted: Coq kernel; hand models Model/Recheck.v, Model/HasherV2.v, Model/CheckPaths.v tied to recheck.py/hasher.py by differential execution of "
+        "whole traces and of Checker.__init__ on real scratch directories; the step from exact integers to the reported IEEE double is PROVED "
+        "(Proofs/Percent.v over Flocq's binary64 rounding: (m/c)*100 = 100 iff m = c, < 100 otherwise, for 0 < c <= 2^53) and those *_float_* theorems "
+        "depend on the standard library's real-number axioms ClassicalDedekindReals.sig_not_dec, ClassicalDedekindReals.sig_forall_dec, "
+        "FunctionalExtensionality.functional_extensionality_dep, Classical_Prop.classic (every other theorem is closed); CPython's correctly rounded "
+        "int/int division and IEEE multiplication are trusted to implement that rounding.")
 RBTB = ("Trusted: Coq kernel; hand models Model/Rebuild.v, Model/CopyPath.v, Model/PathSafe.v tied to rebuild.py / utils.copypath by differential "
         "execution; the reference verifier/encoder (harness/ref/oracle.py); OS file operations on regular files; no symbolic links; no concurrent writer.")
 CLAIMED.update({
